@@ -20,7 +20,7 @@ exchange, offerer chosen freely each round — `C09_renegotiation_chain` proves 
 prefix chain: each one lists the mids of every earlier one at the same positions and appends its new
 sections; with clause 1 this is "its m-section keeps the same mid and the same position".
 
-The model mirrors the repaired code (fix commits f8dd603, 02610b0).  Not covered by the chain theorem, and
+The model mirrors the repaired code (fix commits 62545c3, ce37316).  Not covered by the chain theorem, and
 recorded as findings where the code deviates: a second CreateOffer while the first offer is unanswered
 (`reoffer-before-answer`), a remote that re-uses a mid numbered by an unapplied local offer
 (`remote-reuses-unapplied-local-mid`), counter overflow (`mid-collision:int64-wrap`, hypothesis `NoWrap` of
